@@ -31,6 +31,9 @@ enum HistItem {
     Fail(Vec<u8>, String),
     /// change the window limit (applied to the fresh decoder too)
     SetLimit(u64),
+    /// an older version of one of the dictionaries (same id, same tables, other content) is registered with add_dict, a
+    /// frame written against it is decoded, then the current version is registered again under the same id
+    OldDictionaryEpisode { old_raw: Vec<u8>, frame: Vec<u8>, current_raw: Vec<u8>, idx: usize },
 }
 
 fn dicts() -> &'static Vec<(zspec::dict::Dict, Vec<u8>)> {
@@ -202,6 +205,19 @@ fn apply_history(d: &mut FrameDecoder, h: &[HistItem]) {
                 }
             }
             HistItem::SetLimit(l) => d.set_max_window_size(*l),
+            HistItem::OldDictionaryEpisode { old_raw, frame, current_raw, .. } => {
+                if let Ok(dd) = Dictionary::decode_dict(old_raw) {
+                    let _ = d.add_dict(dd);
+                }
+                let mut src = &frame[..];
+                if d.reset(&mut src).is_ok() {
+                    let _ = d.decode_blocks(&mut src, BlockDecodingStrategy::All);
+                    let _ = d.collect();
+                }
+                if let Ok(dd) = Dictionary::decode_dict(current_raw) {
+                    let _ = d.add_dict(dd);
+                }
+            }
         }
     }
 }
@@ -213,6 +229,7 @@ fn describe(h: &[HistItem]) -> Vec<String> {
             HistItem::Abandon { blocks, collect, name, .. } => format!("abandon after {blocks} blocks{} ({name})", if *collect { ", collected" } else { "" }),
             HistItem::Fail(_, n) => format!("fail({n})"),
             HistItem::SetLimit(l) => format!("set_max_window_size({l})"),
+            HistItem::OldDictionaryEpisode { idx, .. } => format!("add_dict(older version of dictionary {idx}, same id), complete(frame using it), add_dict(current version)"),
         })
         .collect()
 }
@@ -230,6 +247,7 @@ fn hist_class(h: &[HistItem]) -> String {
             HistItem::Abandon { .. } => "A",
             HistItem::Fail(..) => "F",
             HistItem::SetLimit(_) => "L",
+            HistItem::OldDictionaryEpisode { .. } => "D",
         })
         .collect::<Vec<_>>()
         .join("")
@@ -333,6 +351,32 @@ fn gen_history(r: &mut Rng) -> Vec<HistItem> {
                 };
                 h.push(HistItem::Fail(f, "reset fails".into()));
             }
+        }
+        if r.chance(1, 8) {
+            // the caller replaces a dictionary by a newer version under the same id
+            let idx = r.usize(0, dicts().len() - 1);
+            let (current, current_raw) = &dicts()[idx];
+            let mut old = current.clone();
+            for (k, b) in old.content.iter_mut().enumerate() {
+                *b = b.wrapping_add(1 + (k % 7) as u8);
+            }
+            let reach = r.usize(1, old.content.len().min(200));
+            let plan = zspec::synth::FramePlan {
+                header: zspec::frame::HeaderSpec { window_descriptor: Some(0x20), dict_id: Some((old.id, 4)), ..Default::default() },
+                blocks: vec![zspec::synth::BlockPlan::Compressed(zspec::synth::CompressedPlan {
+                    literals: b"xyz".to_vec(),
+                    lit: zspec::synth::LitPlan::Raw { size_format: None },
+                    seqs: vec![zspec::synth::SeqPlan { ll: 3, ml: reach.min(40) as u32 + 3, offset: zspec::synth::OffsetPlan::Raw(3 + reach as u32) }],
+                    ll_mode: zspec::synth::TableMode::Predefined,
+                    of_mode: zspec::synth::TableMode::Predefined,
+                    ml_mode: zspec::synth::TableMode::Predefined,
+                    seq_count_form: zspec::synth::CountForm::Auto,
+                })],
+                dict: Some(old.clone()),
+                checksum_override: None,
+            };
+            let frame = synth::synthesise(&plan).bytes;
+            h.push(HistItem::OldDictionaryEpisode { old_raw: zspec::dict::write_dict(&old), frame, current_raw: current_raw.clone(), idx });
         }
         if r.chance(1, 10) {
             // never above 1 GiB: an accepted window is reserved eagerly on a reused decoder
